@@ -58,6 +58,7 @@ dense_be!(Dense32, f32, "dense", "f32");
 fn gen_run<B: Be>(g: &mut Gen, run: i64, nops: usize, out: &mut Out) {
     let mut file: File<B> = File::new();
     g.reset();
+    g.vec_bias = run % 3 == 0;
     out.emit(reset_event::<B>(run));
     let mut done = 0;
     let mut guardn = 0;
